@@ -35,12 +35,6 @@ def ParseCaught (X : Ext Tree) : Prop :=
 /-- The feature search never raises (finding 17 is an input where it does). -/
 def FeaturesTotal (X : Ext Tree) : Prop := ∀ src t, ∃ ls, X.features src t = .ok ls
 
-/-- The feature search produces no label that already has the `import_internally:` form (spec.md has
-no such feature). -/
-def FeaturesPlain (X : Ext Tree) : Prop :=
-  ∀ src t ls, X.features src t = .ok ls →
-    ∀ l ∈ ls, dropPrefix? (sImport ++ sInternally ++ [cColon]) l.name = none
-
 /-- Every file has its record; invalid and empty files carry the single expected label, and their
 taxa are the taxonomy's answer on that single label. -/
 def Reported (X : Ext Tree) (toTaxa : Name → List Label → List Taxon) (files : List (Name × Name))
